@@ -224,15 +224,20 @@ Stop ==
   /\ stopped' = TRUE
   /\ last' = Rec("stop", NoArgs, <<>>, "", Cardinality(live))
 
+\* (a top-level disjunction of \E-quantified actions: TLC's simulator then picks one
+\* action instance at random instead of evaluating every successor)
 Next ==
-  /\ ~stopped
-  /\ \/ \E f \in AllFids, af \in AllFids : Attach(f, af)
-     \/ \E f \in AllFids, nf \in AllFids, ns \in NameLists : WalkAllowed(f, nf, ns) /\ Walk(f, nf, ns)
-     \/ \E f \in AllFids, m \in Modes : Open(f, m)
-     \/ \E f \in AllFids : Read(f) \/ Write(f) \/ StatLike("stat", f) \/ StatLike("wstat", f)
-     \/ \E f \in AllFids : Del("clunk", f) \/ Del("remove", f)
-     \/ \E f \in AllFids, nm \in CreateNames, m \in Modes : CreateAllowed(f) /\ Create(f, nm, m)
-     \/ Stop
+  \/ \E f \in AllFids, af \in AllFids : ~stopped /\ Attach(f, af)
+  \/ \E f \in AllFids, nf \in AllFids, ns \in NameLists : ~stopped /\ WalkAllowed(f, nf, ns) /\ Walk(f, nf, ns)
+  \/ \E f \in AllFids, m \in Modes : ~stopped /\ Open(f, m)
+  \/ \E f \in AllFids : ~stopped /\ Read(f)
+  \/ \E f \in AllFids : ~stopped /\ Write(f)
+  \/ \E f \in AllFids : ~stopped /\ StatLike("stat", f)
+  \/ \E f \in AllFids : ~stopped /\ StatLike("wstat", f)
+  \/ \E f \in AllFids : ~stopped /\ Del("clunk", f)
+  \/ \E f \in AllFids : ~stopped /\ Del("remove", f)
+  \/ \E f \in AllFids, nm \in CreateNames, m \in Modes : ~stopped /\ CreateAllowed(f) /\ Create(f, nm, m)
+  \/ ~stopped /\ Stop
 
 Spec == Init /\ [][Next]_vars
 
